@@ -243,6 +243,10 @@ def run(ctx):
         ctx.check("C04.R4", f"codec {k}: writer compresses with the specified function", ok_w, wf_.where(), f"{wf_.qualname}: payload = {exprs}", f"payload of codec {k} must be {wpat or 'the block bytes themselves'}")
         ctx.check("C04.R4", f"codec {k}: reader decompresses with the inverse", ok_r, rf_.where(), f"{rf_.qualname}: returns {rets}", f"reader of codec {k} must return BytesIO({rpat or 'the payload'}(payload))")
 
+    # ---- shared ----
+    ctx.borrow("C01", {"C01.R2": "C04.R5"}, "records inside blocks are binary-encoded values: a container round trip needs the writer and reader wire shapes to agree for every kind")
+    ctx.borrow("C12", {"C12.R3": "C04.R6"}, "a self-describing file needs a header schema that defines every type it names (top-level unions and separately parsed types included)")
+
 
 def _match_compress(k, exprs):
     if not exprs:
